@@ -210,12 +210,12 @@ def solveNewton (O : Oracles K n c) (T : Tol K) (maxIters : Nat) (t : K)
 the state is left at and the final `step_size`.  The `0` case is the `for … else` branch
 (line search exhausted: position re-set with the *current* step size). -/
 def lineSearch (O : Oracles K n c) (error : K) (posCurr δ : Vec K n) :
-    Nat → K → Except Fault (Vec K n × K)
+    Nat → K → Except (Fault × Vec K n) (Vec K n × K)
   | 0, α => .ok (vec (posCurr.fn + α • δ.fn), α)
   | k + 1, α =>
     let pos := vec (posCurr.fn + α • δ.fn)
     match O.constr pos with
-    | .error e => .error e
+    | .error e => .error (e, pos)   -- `state.pos` was already set to the trial position
     | .ok cv =>
       if O.normC cv < error then .ok (pos, α) else lineSearch O error posCurr δ k (α * (1 / 2))
 
@@ -241,7 +241,7 @@ def lsLoop (O : Oracles K n c) (T : Tol K) (maxLs : Nat) (Jprev : Mat K c n) (Φ
           let dmu := deltaMu Jprev Ginv cv
           let δ := vec (-(Φqp.fn *ᵥ dmu.fn))
           match lineSearch O error pos δ maxLs 1 with
-          | .error _ => .failed .fault i pos mu
+          | .error (_, posTrial) => .failed .fault i posTrial mu
           | .ok (pos', α) =>
             lsLoop O T maxLs Jprev Φqp fuel (i + 1) pos' (vec (mu.fn + α • dmu.fn)) (vec (α • δ.fn))
 
